@@ -248,6 +248,81 @@ def lateCutLazy (T : Option Nat) (below : Done) (b : Nat) : Done :=
     | none => below
     | some tt => cutAt (some (b + tt)) below
 
+/-! ### Several calls through ONE middleware
+
+`GrpcTimeout { inner, server_timeout }` is a value that lives as long as the stack it is part of:
+on the client ONE instance sits in the `Channel`'s `Buffer` worker
+(`channel/service/connection.rs`: `GrpcTimeout::new(s, endpoint.timeout)` above `Reconnect`) and
+serves every call of every clone of that `Channel`; on the server one instance is built per
+connection (`server/mod.rs`, `MakeSvc::call`) and hyper-util's `TowerToHyperService::call` runs
+every request on a CLONE of it (`self.service.clone()` then `oneshot`).  `Service::call` takes
+`&mut self`, so the middleware COULD carry something from one call to the next; the code reads
+`self.server_timeout` and this request's header and writes nothing.  That is made explicit here: a
+call is a state transition whose new state is the old one. -/
+
+/-- The mutable part of `GrpcTimeout`: its `server_timeout` field (the configured timeout). -/
+structure Mw where
+  configured : Option Nat
+deriving DecidableEq, Repr
+
+/-- `GrpcTimeout::call(&mut self, req)`: (the middleware afterwards, `timeout_duration`).  The
+four-arm `match (client_timeout, self.server_timeout)` only reads. -/
+def Mw.call (m : Mw) (header : Option Nat) : Mw × Option Nat :=
+  (m, effective header m.configured)
+
+/-- NOT the code (what seed C09e turns it into): without a configured timeout the first header
+seen is WRITTEN into the middleware (`*self.server_timeout.get_or_insert(header)`) and from then
+on acts as a configured timeout.  Every single call still gets the right duration
+(`C09_sticky_single_call_agrees`). -/
+def Mw.callSticky (m : Mw) (header : Option Nat) : Mw × Option Nat :=
+  match header with
+  | some h =>
+    let c := m.configured.getD h
+    (⟨some c⟩, some (min h c))
+  | none => (m, m.configured)
+
+/-- A call through the client stack once `GrpcTimeout::call` has chosen the sleep `T`
+(`clientCall` = this at `T = effective caller endpoint`). -/
+def clientCallWith (T : Option Nat) (r : Reply) : Done :=
+  match cutAt T r.headDone with
+  | .inner _ =>
+    match r.done with
+    | some l => .inner l
+    | none => .pending
+  | d => d
+
+/-- Calls dispatched one after the other (in list order — for overlapping calls: the order in which
+the `Buffer` worker hands them to `GrpcTimeout::call`) through ONE middleware whose `call` is
+`call`; each call's header and how its wrapped future resolves, times relative to that call's
+dispatch.  The state is threaded from call to call. -/
+def mwCallsBy (call : Mw → Option Nat → Mw × Option Nat) (m : Mw) :
+    List (Option Nat × Done) → List Done
+  | [] => []
+  | (h, below) :: rest =>
+    let s := call m h
+    cutAt s.2 below :: mwCallsBy call s.1 rest
+
+/-- The same through the client stack of one `Channel` (built with `Endpoint::timeout =
+m.configured`): caller's header and the peer's reply, per call. -/
+def channelCallsBy (call : Mw → Option Nat → Mw × Option Nat) (m : Mw) :
+    List (Option Nat × Reply) → List Done
+  | [] => []
+  | (h, r) :: rest =>
+    let s := call m h
+    clientCallWith s.2 r :: channelCallsBy call s.1 rest
+
+/-- Requests on ONE connection of `transport::Server` (built with `Server::timeout =
+m.configured`): each request runs on a clone of the connection's stack, and the clone — with
+whatever `call` left in it — is dropped when the request is done. -/
+def connCallsBy (call : Mw → Option Nat → Mw × Option Nat) (m : Mw)
+    (reqs : List (Option Nat × Option Nat)) : List Done :=
+  reqs.map fun q => cutAt (call m q.1).2 (answer q.2)
+
+/-- The code. -/
+def mwCalls (m : Mw) := mwCallsBy Mw.call m
+def channelCalls (m : Mw) := channelCallsBy Mw.call m
+def connCalls (m : Mw) := connCallsBy Mw.call m
+
 /-! ### What travels: `Request::set_timeout`, the header map, the builders -/
 
 /-- `status.rs`: `TimeoutExpired` is mapped to `Status::cancelled(timeout.to_string())`, and
